@@ -54,6 +54,21 @@ theorem advance_spec (fuel : Nat) : ∀ (r : WireR), r.seg < r.wire.length → r
       have := accSz_le_total r.wire (r.seg + 1)
       omega
 
+/-- on a live reader the guarded loop of `Skip` is the loop of `Delegate` -/
+theorem skipLoop_eq_advance (fuel : Nat) : ∀ (r : WireR), r.seg < r.wire.length →
+    WireR.skipLoop fuel r = WireR.advance fuel r := by
+  induction fuel with
+  | zero => intro r _; rfl
+  | succ fuel ih =>
+    intro r h
+    have hn : ¬ r.seg ≥ r.wire.length := by omega
+    by_cases hc : r.pos > (r.segAt r.seg).length
+    · by_cases hn2 : r.seg + 1 ≥ r.wire.length
+      · simp only [WireR.skipLoop, WireR.advance, h, hc, and_self, if_true, if_pos hn2, if_neg hn]
+      · simp only [WireR.skipLoop, WireR.advance, h, hc, and_self, if_true, if_neg hn2, if_neg hn]
+        exact ih _ (by simp only []; omega)
+    · simp only [WireR.skipLoop, WireR.advance, h, hc, and_false, if_false, if_neg hn]
+
 /-! ### the scans of Range -/
 
 theorem foldl_range_unique {α : Type} (P : Nat → Prop) [DecidablePred P] (f : Nat → α) (init : α) (i0 : Nat)
